@@ -566,7 +566,7 @@ def exhaustive_sequences(ck, si, alphabet, depth, depth_extra, light=False):
         seqs += [(a, e) for a in (alphabet if quick else pool) for e in EXTRA] + [(e, a) for e in EXTRA for a in alphabet]
     if depth_extra >= 3:
         rng = random.Random(f'{ck.seed}:c13x:{si}')
-        seqs += [tuple(rng.choice(pool) for _ in range(3)) for _ in range(300 if quick else 1500)]
+        seqs += [tuple(rng.choice(pool) for _ in range(3)) for _ in range(300 if quick else 1000)]
     return list(dict.fromkeys(seqs))
 
 
@@ -1154,6 +1154,10 @@ def _labels(w):
     w.cur.calc_labels()
 
 
+def _labels_new(w):
+    w.others[0].calc_labels()
+
+
 def _fix_stereo(w):
     w.cur.flush_cache()
     w.cur.fix_stereo()
@@ -1222,7 +1226,7 @@ def classify(cur, other, ops, hook_findings, final):
         return 'add_bond-special-no-labels' if clean(attempt(cur, other, ops, post=_labels)) else None
     if (k == 'remap' or (k == 'union' and op[1])) and kinds <= {'labels'} and all('_ring_sizes' in f[2] or '_in_ring' in f[2] for f in final):
         # known: which rings the SSSR picks depends on the numbering; remap keeps the ring marks of the old choice
-        return 'remap-ring-marks-sssr-choice' if clean(attempt(cur, other, ops, post=_labels)) else None
+        return 'remap-ring-marks-sssr-choice' if clean(attempt(cur, other, ops, post=_labels_new if k == 'union' and op[2] else _labels)) else None
     if k == 'add_bond' and op[3] == 8 and kinds <= {'stereo', 'cache'}:
         # known: a special bond to a labelled stereocentre does not run fix_stereo
         return 'add_bond-special-stereo-stale' if clean(attempt(cur, other, ops, post=_fix_stereo)) else None
@@ -1466,7 +1470,7 @@ def run(ck):
         'fix_stereo is modelled only through its cache effect; stereo labels after edits, ring marks (_in_ring/_ring_sizes) and reaction '
         'containers are covered by the search only']
     ck.extra['rule'] = ('correspondence: every sequence over a 12-operation alphabet up to length 3 (thorough: 4) on 3 seed molecules, plus a pool of 38 '
-                        'malformed / remaining operations at depth 1-2 (quick: paired with the alphabet; thorough: with each other too) and sampled at depth 3 (300 / 1500 per seed), plus random state-aware sequences (about 12% malformed '
+                        'malformed / remaining operations at depth 1-2 (quick: paired with the alphabet; thorough: with each other too) and sampled at depth 3 (300 / 1000 per seed), plus random state-aware sequences (about 12% malformed '
                         'arguments) on Kekule forms of corpus molecules compared after every step; every case is a distinct history and is '
                         'non-trivial (it compares atoms, bonds, cached keys, _changed, _backup, staleness, identity partition). search: the same runs, '
                         'compared with a molecule rebuilt from scratch after every history (random: after every step), plus stereo seeds and reactions')
@@ -1481,7 +1485,7 @@ def run(ck):
     ok1, failing1, log1 = corr_run(cr, 'c13')
     t3 = time.time()
     cr2 = Corr(ck)
-    explore_random(cr2, 50 if quick else 500, 12 if quick else 25)
+    explore_random(cr2, 50 if quick else 400, 12 if quick else 25)
     t4 = time.time()
     ok2, failing2, log2 = corr_run(cr2, 'c13r', shard=7 if quick else 25)
     t5 = time.time()
